@@ -124,6 +124,25 @@ func runC01(c *Cfg) {
 			}
 		}
 	}
+	for kind := 0; kind < scen.NumScriptedKinds; kind++ { // waits of a few nanoseconds
+		if !scen.KindHasRetry(kind) {
+			continue
+		}
+		for _, wn := range []int{1, 3, 7, 9, 10, 11} {
+			ns := scen.NodeSpec{Kind: kind, N: 3, HasFB: scen.KindCanFB(kind), WaitNs: wn, Visits: []scen.Visit{{FirstOK: 2 + wn%3, FBErr: wn%2 == 0, Post: "go"}}}
+			ww = append(ww, &scen.Scenario{Nodes: []scen.NodeSpec{ns}, Root: 0, Runs: 1})
+		}
+	}
+	// a Result-style prep function that succeeds with an error RESULT (nil error): prep has not failed — exec and post follow
+	for _, kind := range []int{scen.KFnOptRes, scen.KFnBldRes} {
+		for n := 1; n <= 2; n++ {
+			for k := 1; k <= n+1; k++ {
+				ns := scen.NodeSpec{Kind: kind, N: n, HasFB: k%2 == 0, Visits: []scen.Visit{{FirstOK: k, Post: "go", PrepErrRes: true}}}
+				ww = append(ww, &scen.Scenario{Nodes: []scen.NodeSpec{ns}, Root: 0, Runs: 1})
+				ww = append(ww, &scen.Scenario{Nodes: []scen.NodeSpec{ns, {Kind: scen.KFlow, N: 1, Flow: &scen.FlowSpec{Start: 0}}}, Root: 1, Runs: 1})
+			}
+		}
+	}
 	parallelN(c, len(ww), 32, func(i int) {
 		judgeFor(c, "C01", "with-a-retry-wait", ww[i])
 		r.Count("with_retry_wait.cases", 1)
